@@ -7,7 +7,7 @@ except Exception as _e:     # never break the registry for the other properties
     _sys.stderr.write("C03: cannot register the parrot translator: %r\n" % (_e,))
 
 ENTRY = dict(
-    runner="C03", pkg="./cmd/c03", corr=["Corr.C03Corr"], gen=True, n=dict(quick=6, thorough=200),
+    runner="C03", pkg="./cmd/c03", corr=["Corr.C03Corr"], gen=["parrots"], n=dict(quick=6, thorough=200),
     rule="Gen/Parrots.v is regenerated before the proof build: go/parser lists every Hello* ClientHelloID of u_common.go (aliases, "
          "ids UTLSIdToSpec refuses and the helloRandomized* ids are listed as such), UTLSIdToSpec is called 16 times per id and the "
          "spec is rendered field by field (extensions through harness/extcoq); calls of one id must be rearrangements of each other "
